@@ -132,6 +132,44 @@ def prop(case):
                 raise Violation("collision-changed-state", "%s: the refused call changed the Gfa" % ctx, "unname")
             check_namespace(run, ctx)
             continue
+        if kind == "convert":
+            # a conversion to GFA2 hands identifiers out to the links and containments which have none, in the
+            # SOURCE Gfa (written there as ID tags): they are identifiers like any other - listed, found by lookup,
+            # refused for further lines.  (Last step of a history: the generator cannot know the numbers.)
+            unnamed = []
+            for rec in run.model.recs:
+                if rec.rt in "LC" and not rec.tag("ID"):
+                    line = run.find_line(rec)
+                    if line is None:
+                        raise Violation("line-lost", "%s: no line for %r" % (ctx, rec.text()))
+                    unnamed.append((rec, line))
+            try:
+                run.gfa.to_gfa2_s()
+                labels["converted"] = True
+            except GfapyError:
+                labels["converted"] = False
+            except Exception as e:
+                raise Violation("convert-foreign", "%s: to_gfa2_s() raised %s: %s" % (ctx, type(e).__name__, str(e)[:200]), type(e).__name__)
+            given = []
+            for rec, line in unnamed:
+                v = line.get("ID")
+                if v is not None:
+                    rec.tags = list(rec.tags) + [("ID", "Z", str(v))]
+                    given.append(str(v))
+            labels["ids_given"] = bool(given)
+            check_namespace(run, ctx)
+            for v in given:
+                before, btext = O.observe(run.gfa), str(run.gfa)
+                try:
+                    run.gfa.add_line("S\t%s\t*" % v)
+                except gfapy.NotUniqueError:
+                    if O.observe(run.gfa) != before or str(run.gfa) != btext:
+                        raise Violation("collision-changed-state", "%s: the refused call changed the Gfa" % ctx, "convert")
+                    continue
+                except Exception as e:
+                    raise Violation("collision-error-class", "%s: a segment named like the identifier %r given by the conversion raised %s" % (ctx, v, type(e).__name__), "convert")
+                raise Violation("collision-accepted", "%s: a segment named %r was accepted although the conversion gave that identifier to a link\n%s" % (ctx, v, str(run.gfa)), "convert")
+            continue
         if kind == "rename_pending":
             # a rename to an identifier which other lines mention and no line defines yet: gfapy refuses it; if a
             # library accepts it, the renamed line must BE the line those mentions resolve to.  Either way the
@@ -290,6 +328,14 @@ def gen_case(r, version):
                               "ids": True, "shuffle": False, "comments": False}) if version == "gfa1" else \
         gen.build_gfa2(r, {"names": H.POOL["S"], "nseg": (2, 4), "headers": False, "shuffle": False,
                             "comments": False, "groups": True})
+    if version == "gfa2" and gen.fair(r, 0.1):
+        # a Gfa that holds groups only at first (no segment, no edge: everything they mention is pending);
+        # the lines they wait for arrive later in the history, after some of the groups were renamed
+        keep = [l for l in doc["lines"] if l[0] in "OU" and l[1][0] != "*"]
+        if not keep:
+            keep = [["O", ["o1", "A+ e1+ B+"], []], ["U", ["u1", "o1 A"], []]]
+        doc["lines"] = keep
+        doc["groups_only"] = True
     for l in doc["lines"]:
         if l[0] in "OU" and l[1][0] != "*" and gen.chance(r, 0.6) and not any(t[0] == "q9" for t in l[2]):
             l[2].append(["q9", gen.choice(r, ["A", "J"]), gen.choice(r, ["x", "y"])])
@@ -303,7 +349,10 @@ def gen_case(r, version):
         rec = H.model_add(st_, l)
         if rec.rt == "L":
             st_.ov_policy[M.ends_key(*rec.pos[:4])] = "*" if rec.pos[4] == "*" else "spec"
-    ops.append(["load", doc["lines"]])
+    if doc.get("groups_only"):
+        ops.extend(["add", l, False] for l in doc["lines"])  # (line by line: a document with pending references does not validate)
+    else:
+        ops.append(["load", doc["lines"]])
     merged = set()
     for _ in range(r.randint(4, 16)):
         x = r.random()
@@ -475,6 +524,8 @@ def gen_case(r, version):
                 merged.add(id(rec_))
             ops.append(["add", line, False])
     ops = [o for o in ops if o[0] != "stop"]
+    if version == "gfa1" and gen.chance(r, 0.3):
+        ops.append(["convert"])
     return {"version": version, "vlevel": gen.choice(r, [1, 1, 2, 3]), "ops": ops}
 
 
